@@ -911,6 +911,11 @@ fn run_sc(ctx: &mut Ctx, rr: &mut Rng, mut sc: Scenario, class: &'static str, ca
         let mut k = 0;
         sc.dirs.retain(|_| { k += 1; keep.contains(&k) });
     }
+    if let Ok(dir) = std::env::var("VERIF_C05_DUMP_DIR") {
+        let _ = std::fs::create_dir_all(&dir);
+        let _ = std::fs::write(format!("{}/network.json", dir), serde_json::to_string(&sc.dn.net).unwrap());
+        let _ = std::fs::write(format!("{}/trains.json", dir), serde_json::to_string(&sc.trains).unwrap());
+    }
     ctx.count(&format!("c05.scenario.class.{}", class));
     if let Err(e) = sc.dn.net.validate() {
         ctx.count("c05.scenario.net_invalid");
